@@ -6,6 +6,7 @@
 #include <stdlib.h>
 #include <string.h>
 #include <stdint.h>
+#include <unistd.h>
 #include "libopenwater.h"
 
 #define GUARD 256
@@ -35,9 +36,14 @@ static char *tok(char **p) {
 }
 static long ti(char **p) { char *t = tok(p); return t ? strtol(t, NULL, 10) : 0; }
 static double tf(char **p) { char *t = tok(p); uint64_t u = t ? strtoull(t + 1, NULL, 10) : 0; double d; memcpy(&d, &u, 8); return d; }
-static void pf(double d) { uint64_t u; memcpy(&u, &d, 8); printf(" f%llu", (unsigned long long)u); }
+static FILE *proto;
+static void pf(double d) { uint64_t u; memcpy(&u, &d, 8); fprintf(proto, " f%llu", (unsigned long long)u); }
 
 int main(void) {
+  /* the library prints diagnostics on fd 1 (fmt.Println in some kernels): keep them off the protocol stream */
+  int fd = dup(1);
+  dup2(2, 1);
+  proto = fdopen(fd, "w");
   char *line = NULL; size_t cap = 0;
   while (getline(&line, &cap, stdin) > 0) {
     char *p = line;
@@ -55,18 +61,18 @@ int main(void) {
     long oc = ti(&p), nO = ti(&p), oT = ti(&p);
     buf_t O = mk(oc * nO * oT); for (long i = 0; i < oc * nO * oT; i++) O.data[i] = tf(&p);
     RunSingleModel(model, I.data, nB, nI, T, P.data, nRows, nSets, S.data, N, nS, O.data, oc, nO, oT, init ? 1 : 0);
-    printf("ok %ld %ld %ld", oc, nO, oT);
+    fprintf(proto, "ok %ld %ld %ld", oc, nO, oT);
     for (long i = 0; i < oc * nO * oT; i++) pf(O.data[i]);
-    printf(" %ld %ld", N, nS);
+    fprintf(proto, " %ld %ld", N, nS);
     for (long i = 0; i < N * nS; i++) pf(S.data[i]);
     /* inputs and parameters must be unchanged: print a checksum-free verdict by re-parsing is not possible here; the
        harness compares with its own copy, so print them as well */
-    printf(" | P");
+    fprintf(proto, " | P");
     for (long i = 0; i < nRows * nSets; i++) pf(P.data[i]);
-    printf(" | I");
+    fprintf(proto, " | I");
     for (long i = 0; i < nB * nI * T; i++) pf(I.data[i]);
-    printf(" | canary=%s\n", (intact(P) && intact(I) && intact(S) && intact(O)) ? "ok" : "broken");
-    fflush(stdout);
+    fprintf(proto, " | canary=%s\n", (intact(P) && intact(I) && intact(S) && intact(O)) ? "ok" : "broken");
+    fflush(proto);
     free(P.base); free(I.base); free(S.base); free(O.base);
   }
   return 0;
